@@ -8,7 +8,7 @@ PROPERTY = 'C01'
 LEVEL = 'exploration'
 RULE = ('accepted grammars from the C01 profile (sequence, |, ||, [], ..., within-word expressions with '
         'prefix-free items, definitions in any order, descriptions, {{{printf}}} commands with fixed output, '
-        'undefined nonterminals) are compiled by the real binary, the script is sourced in a real bash with '
+        'undefined nonterminals; plus dedicated families: one definition shared by `||` branches of different index, one literal text expected at several points with different descriptions, the same text with and without description inside one word) are compiled by the real binary, the script is sourced in a real bash with '
         'a 3-line _get_comp_words_by_ref stub, and for every query (walk over the reference automaton, '
         'perturbed by a foreign word / near miss / swap / deletion; cursor word = empty, every prefix of every '
         'item expected there, prefixes of items not expected, foreign text; COMP_WORDBREAKS default or empty) '
